@@ -42,6 +42,12 @@ type Event struct {
 
 	// property-specific observations (booleans), always a JSON object
 	Obs map[string]bool `json:"obs"`
+
+	// resharing (C04): old members whose caller-held secret share is still the original value,
+	// new members that have emitted key data, new members whose final ACK has been seen on the wire
+	Intact  []int `json:"intact"`
+	Emitted []int `json:"emitted"`
+	Acked   []int `json:"acked"`
 }
 
 const Done = 99
@@ -58,6 +64,15 @@ func (e *Event) Normalise() {
 	}
 	if e.Obs == nil {
 		e.Obs = map[string]bool{}
+	}
+	if e.Intact == nil {
+		e.Intact = []int{}
+	}
+	if e.Emitted == nil {
+		e.Emitted = []int{}
+	}
+	if e.Acked == nil {
+		e.Acked = []int{}
 	}
 	sort.Ints(e.Culprits)
 	sort.Ints(e.Waiting)
